@@ -47,7 +47,7 @@ def handle : List String → List String → Option String
     let res ← parseResult impl
     if !wf L.leaves then some "unspecified"
     else some (Driver.verdict (acceptsUnmarshal L.leaves b res)
-      "the positional protocol reading (exact value for in-domain bytes; error or zero for out-of-domain bytes; error for a fixed-value mismatch; never a panic)")
+      "the positional protocol reading (exact value for in-domain bytes; error - or 'no value' where the type has one - for out-of-domain bytes; error for a fixed-value mismatch; never a panic)")
   | [d, h], impl =>
     if d = "dispatch-req" ∨ d = "dispatch-resp" then do
       let b ← fromHex h
